@@ -10,7 +10,7 @@ import PyaModel.Spec.Suppress
   → `model=<fails | EXC:IndexError> used=<sorted used_ignores> spec=<fails> D=<class | -> [sl=<ok|DIFF>]`
     fails = `;`-joined `code@line.col` (`-` if empty): model = `C11.check`, spec = `C11.specCheck`;
     with a source: `sl` says whether `C11.pyLines src` is the given line list, spec is evaluated on
-    `C11.tokLines src`, and D is `splitlinesMismatch` when `D11_splitlinesMismatch src`
+    `C11.tokLines src`; D is always `-` (C11 has no exception class left)
 
 `S|<src>`  → `py=<pyLines, encoded> tok=<tokLines, encoded>`
 
@@ -87,8 +87,8 @@ def handleE (off ls raw : String) (src : Option String) : String :=
       | some st => s!"model={showFails st.fails} used={showUsed st.used}"
       | none => "model=EXC:IndexError used=-"
     let specLines := match src with | some s => tokLines s | none => ls
-    let d := if (match src with | some s => D11_splitlinesMismatch s | none => false) then "splitlinesMismatch"
-      else if D11_lineOneWrap en ls raw then "lineOneWrap" else "-"
+    -- no exception class is left (lineOneWrap, splitlinesMismatch: repaired in /repo, see Props/C11.lean)
+    let d := "-"
     let sl := match src with
       | some s => if pyLines s == ls then " sl=ok" else " sl=DIFF"
       | none => ""
